@@ -217,4 +217,61 @@ theorem targetLoop_fold (res outW inW delta : Rat) (inCl outCl : List Rat) (ts :
         · exact le_trans (not_lt.mp hlt) h5
         · rw [← hjoin t' ht']; exact h4 t' ht'
 
+/-- **tie rule**: when the loop over the (increasingly ordered) neighbouring clusters improves on `best`, the
+    cluster it ends with is the first one — the smallest label — among those of maximal gain -/
+theorem targetLoop_first (res outW inW delta : Rat) (inCl outCl : List Rat) (ts : List Nat)
+    (best : Rat) (bl : Nat) (cw : List Rat) (hs : ts.Pairwise (· < ·)) (hb : ∀ t ∈ ts, t < cw.length) :
+    best < (ts.foldl (targetStep res outW inW delta inCl outCl) (best, bl, cw)).1 →
+    ∀ t ∈ ts, joinAt res outW inW delta inCl outCl cw t
+        = (ts.foldl (targetStep res outW inW delta inCl outCl) (best, bl, cw)).1 →
+      (ts.foldl (targetStep res outW inW delta inCl outCl) (best, bl, cw)).2.1 ≤ t := by
+  induction ts generalizing best bl cw with
+  | nil => intro _ t ht; exact absurd ht List.not_mem_nil
+  | cons t0 ts ih =>
+    have hs' := List.pairwise_cons.mp hs
+    have hnd : (t0 :: ts).Nodup := hs.imp (fun h => Nat.ne_of_lt h)
+    have hnd' := List.nodup_cons.mp hnd
+    have hstep : targetStep res outW inW delta inCl outCl (best, bl, cw) t0 =
+        (if best < joinAt res outW inW delta inCl outCl cw t0
+          then (joinAt res outW inW delta inCl outCl cw t0, t0, cw.set t0 0) else (best, bl, cw.set t0 0)) := by
+      by_cases hlt' : best < joinAt res outW inW delta inCl outCl cw t0
+      · rw [if_pos hlt']
+        have h1 : Scalar.lt best (joinAt res outW inW delta inCl outCl cw t0) = true := by simpa using hlt'
+        unfold joinAt at h1
+        simp only [targetStep, zero_rat]
+        rw [if_pos h1]
+        rfl
+      · rw [if_neg hlt']
+        have h1 : ¬ Scalar.lt best (joinAt res outW inW delta inCl outCl cw t0) = true := by simpa using hlt'
+        unfold joinAt at h1
+        simp only [targetStep, zero_rat]
+        rw [if_neg h1]
+    have hjoin : ∀ t' ∈ ts, joinAt res outW inW delta inCl outCl (cw.set t0 0) t'
+        = joinAt res outW inW delta inCl outCl cw t' := by
+      intro t' ht'
+      have : t0 ≠ t' := fun h => hnd'.1 (h ▸ ht')
+      simp [joinAt, this]
+    have hb' : ∀ t' ∈ ts, t' < (cw.set t0 0).length := by
+      intro t' ht'; simp; exact hb t' (List.mem_cons_of_mem _ ht')
+    simp only [List.foldl_cons, hstep]
+    by_cases hlt : best < joinAt res outW inW delta inCl outCl cw t0
+    · simp only [hlt, if_true]
+      obtain ⟨-, -, h3, -, h5⟩ := targetLoop_fold res outW inW delta inCl outCl ts
+        (joinAt res outW inW delta inCl outCl cw t0) t0 (cw.set t0 0) hnd'.2 hb'
+      intro _ t ht heq
+      rcases h3 with ⟨e1, e2⟩ | ⟨m, e, l⟩
+      · -- nothing better later: the loop ends with `t0`, the head of an increasing list
+        rw [e2]
+        rcases List.mem_cons.mp ht with rfl | ht'
+        · exact le_refl _
+        · exact Nat.le_of_lt (hs'.1 t ht')
+      · rcases List.mem_cons.mp ht with rfl | ht'
+        · rw [← heq] at l; exact absurd l (lt_irrefl _)
+        · exact ih _ _ _ hs'.2 hb' l t ht' (by rw [hjoin t ht']; exact heq)
+    · simp only [hlt, if_false]
+      intro hgt t ht heq
+      rcases List.mem_cons.mp ht with rfl | ht'
+      · rw [heq] at hlt; exact absurd hgt hlt
+      · exact ih _ _ _ hs'.2 hb' hgt t ht' (by rw [hjoin t ht']; exact heq)
+
 end SkNet.Modularity
